@@ -88,6 +88,7 @@ fn run_case(c: &Case) -> CaseOut {
                         let k = t.get_token_type();
                         let class_ok = match class {
                             "ident" => matches!(k, RawTokenType::Identifier | RawTokenType::IdentifierOrKeyword(_)),
+                            "plainident" => matches!(k, RawTokenType::Identifier),
                             "kw" => matches!(k, RawTokenType::Keyword(_) | RawTokenType::IdentifierOrKeyword(_)),
                             "num" => matches!(k, RawTokenType::NumberLiteral(_)),
                             "text" => matches!(k, RawTokenType::TextLiteral(x) if x != TextLiteralKind::Unterminated),
@@ -433,6 +434,38 @@ fn run_case(c: &Case) -> CaseOut {
                 proto::changed(&snap.contents_pre, &snap.contents_post),
             );
             CaseOut { in_line, exp_line, oracle_failures, stats }
+        }
+        "full" => {
+            // the whole formatter against the closed Lean model: input bytes and configuration in, output bytes out
+            let (real_out, _) = stages::run_real(&c.input, &c.cfg, &[]);
+            let mut alnum: Vec<String> = vec![];
+            let lexed = {
+                use pasfmt_core::prelude::*;
+                DelphiLexer {}.lex(&c.input)
+            };
+            for t in lexed {
+                use pasfmt_core::prelude::*;
+                if matches!(t.get_token_type(), RawTokenType::Comment(_)) {
+                    if let Some(rest) = t.get_content().strip_prefix("//") {
+                        let rest = rest.strip_prefix('/').unwrap_or(rest);
+                        if let Some(ch) = rest.chars().next() {
+                            if !ch.is_ascii() && ch.is_alphanumeric() {
+                                let h = proto::hex(ch.to_string().as_bytes());
+                                if !alnum.contains(&h) {
+                                    alnum.push(h);
+                                }
+                            }
+                        }
+                    }
+                }
+            }
+            bump(&mut stats, "input_bytes_full", c.input.len());
+            CaseOut {
+                in_line: format!("full\t{}\t{}\t{}", c.cfg.to_proto(), proto::hex(c.input.as_bytes()), proto::list(&alnum)),
+                exp_line: format!("out={}", proto::hex(&real_out)),
+                oracle_failures,
+                stats,
+            }
         }
         "pfull" => {
             // the whole logical-line parser (control flow included) against the Lean model: raw kinds and, for the
